@@ -396,14 +396,25 @@ def _check_calendar(prog: Program, res: Result):
     ok = len(rets) == 1 and isinstance(rets[0].value, ast.Subscript)
     idx_ok = False
     if ok:
-        idx = eng.eval(rets[0].value.slice, finals[0])
         M = Rat.atom("month")
-        # accepted: ite(month > 12, month % 12, month)  [index 0 is the December wrap]
-        if isinstance(idx, Rat):
-            k = idx.key()
-            idx_ok = k.startswith("ite(") and "mod(month, 12)" in k and k.rstrip(")").endswith("month")
-            if idx.equals(M):
-                idx_ok = False
+        rfin = [f for f in finals if f.exit is not None and f.exit[0] == "return"]
+        idx_ok = bool(rfin)
+        for f in rfin:
+            idx = eng.eval(rets[0].value.slice, f)
+            good = False
+            if isinstance(idx, Rat):
+                k = idx.key()
+                if k.startswith("ite("):
+                    # one path, the choice kept as a conditional value: ite(month > 12, month % 12, month)  [index 0 is the December wrap]
+                    good = "mod(month, 12)" in k and k.rstrip(")").endswith("month") and not idx.equals(M)
+                else:
+                    # the choice was a branch: this path knows on which side of 12 the month is
+                    sg = f.sign_of(M - Rat.const(12))
+                    if sg == frozenset("+"):
+                        good = idx.equals(sym.call("mod", [M, Rat.const(12)]))
+                    elif sg and sg <= frozenset("-0"):
+                        good = idx.equals(M)
+            idx_ok = idx_ok and good
     res.ob("R08.4", "monthdays indexes the table by month (months > 12 wrapped modulo 12, 0 = December)", ok and idx_ok, prog.loc(fi, rets[0]) if rets else prog.loc(fi, fi.node))
     if not (ok and idx_ok):
         res.violation("R08.4", "monthdays-index", prog.loc(fi, rets[0]) if rets else prog.loc(fi, fi.node), q,
@@ -444,28 +455,33 @@ def _check_calendar(prog: Program, res: Result):
         st2.env[lv] = Rat.atom(lv)
         for k in consts:
             st2.env[k] = Rat.atom(k)
-        fin = eng.run_block(loop.body, [st2])
-        if len(fin) != 1:
-            raise AnalysisError(f"{q}: loop body not straight-line")
-        fin = fin[0]
-        acc = [k for k in consts if isinstance(fin.env.get(k), Rat) and not fin.env[k].equals(Rat.atom(k))]
-        if len(acc) != 1:
-            raise AnalysisError(f"{q}: accumulator not identified ({acc})")
-        a = acc[0]
-        inc = fin.env[a] - Rat.atom(a)
+        fins = [f_ for f_ in eng.run_block(loop.body, [st2]) if f_.exit is None]
+        if not fins or len(fins) > 8:
+            raise AnalysisError(f"{q}: loop body not understood ({len(fins)} paths)")
+        accs_ = {k for f_ in fins for k in consts if isinstance(f_.env.get(k), Rat) and not f_.env[k].equals(Rat.atom(k))}
+        if len(accs_) != 1:
+            raise AnalysisError(f"{q}: accumulator not identified ({sorted(accs_)})")
+        a = accs_.pop()
         ok_init = consts[a].const_value() == init_want
         res.ob("R08.4", f"{name}: accumulator starts at {init_want}", ok_init, prog.loc(fi, fi.node))
         if not ok_init:
             res.violation("R08.4", f"{name}-init:{consts[a]}", prog.loc(fi, fi.node), q, f"{name} starts accumulating at {consts[a]} instead of {init_want}")
-        # increment = 24 * monthdays(<i or i % 12>, .)
-        md = [x for x in inc.atoms() if x.startswith("monthdays(")]
-        ok_inc = False
-        if len(md) == 1 and inc.equals(Rat.const(24) * Rat.atom(md[0])):
-            df = sym.ATOM_DEF.get(md[0])
-            arg0 = df[2][0] if df and df[0] == "call" else None
-            if isinstance(arg0, Rat):
-                if arg0.equals(Rat.atom(lv)) or arg0.equals(sym.call("mod", [Rat.atom(lv), Rat.const(12)])):
-                    ok_inc = True
+        # increment = 24 * monthdays(<i or i % 12>, .)  on every path through the loop body
+        ok_inc = True
+        inc = None
+        for fin in fins:
+            inc = fin.env[a] - Rat.atom(a)
+            md = [x for x in inc.atoms() if x.startswith("monthdays(")]
+            ok1 = False
+            if len(md) == 1 and inc.equals(Rat.const(24) * Rat.atom(md[0])):
+                df = sym.ATOM_DEF.get(md[0])
+                arg0 = df[2][0] if df and df[0] == "call" else None
+                if isinstance(arg0, Rat):
+                    if arg0.equals(Rat.atom(lv)) or arg0.equals(sym.call("mod", [Rat.atom(lv), Rat.const(12)])):
+                        ok1 = True
+            if not ok1:
+                ok_inc = False
+                break
         res.ob("R08.4", f"{name}: adds 24 * monthdays(loop month) per month (got {inc.key()[:120]})", ok_inc, prog.loc(fi, loop))
         if not ok_inc:
             res.violation("R08.4", f"{name}-increment", prog.loc(fi, loop), q, f"{name} adds {inc.key()[:200]} per month instead of 24 * monthdays(month)")
